@@ -21,7 +21,13 @@ func (rl *ReconciledLoader) IngestResponse(md graphsync.LinkMetadata, traceLink 
 		if action == graphsync.LinkActionPresent {
 			if _, isDuplicate := duplicates[link]; !isDuplicate {
 				duplicates[link] = struct{}{}
-				newItem.block = blocks[link]
+				if blk, ok := blocks[link]; ok {
+					// a present zero-length block is still a block: nil means "not in this message"
+					if blk == nil {
+						blk = []byte{}
+					}
+					newItem.block = blk
+				}
 			}
 		}
 		newItem.traceLink = traceLink
